@@ -250,6 +250,12 @@ func checkC07(p *Prog, rp *Report) {
 		nscripts++
 		m := readerMachine(p, script)
 		st := initState(m, "control")
+		if st.Status == stStuck {
+			if undec == "" {
+				undec = st.Msg
+			}
+			return
+		}
 		rid := st.alloc(types.Typ[types.Int], OpaqueV{"bufio"})
 		prID := st.alloc(prT, mkStruct(prT, map[string]Val{roleField(prT, "*bufio.Reader", "reader"): Ptr{Obj: rid}}))
 		refPos := 0
@@ -277,7 +283,13 @@ func checkC07(p *Prog, rp *Report) {
 				}
 				return
 			}
-			tv := st.Ret.(*TupleV)
+			tv, isTuple := st.Ret.(*TupleV)
+			if !isTuple {
+				if undec == "" {
+					undec = fmt.Sprintf("script %q: Next returned %s (state %s, %d frames left)", script, fmtVal(st.Ret, func(i int) string { return fmt.Sprint(i) }), retDesc(out), len(st.Frames))
+				}
+				return
+			}
 			want, wantErr, np := refNext(script, refPos)
 			refPos = np
 			gotErr := ""
@@ -342,6 +354,98 @@ func checkC07(p *Prog, rp *Report) {
 	default:
 		lines.check(mismatch == "", "control.ParagraphReader.Next", pos, fmt.Sprintf("%d scripts (every sequence of up to %d of 21 line kinds, with and without the final newline), all calls of Next until end of input agree with the reference", nscripts, map[bool]int{false: 3, true: 4}[rp.Tier == "thorough"]), mismatch)
 		inv.check(invProblem == "", "control.ParagraphReader.Next", pos, fmt.Sprintf("invariant holds for every paragraph returned on %d scripts, malformed ones included", nscripts), invProblem)
+	}
+
+	// C07-NEW: through the constructor (which peeks at the first bytes to recognise a clearsigned document): short
+	// and empty documents, and a longer one, read with Next until the end
+	{
+		nw := rp.Rule("C07-NEW", "NewParagraphReader on plain input of any length, then Next: the paragraphs of the input", 1)
+		ctor := p.Func("control", "NewParagraphReader")
+		if ctor == nil {
+			nw.bad("control.NewParagraphReader", "", "function not found", nil)
+		} else {
+			var problems []string
+			undecided := ""
+			docs := [][]string{{"A: b\n"}, {"A: b"}, {}, {"\n"}, {"A:\n"}, {"Alpha: one\n", "\n", "Beta: two\n"}, {"# c\n", "Package: a-long-enough-first-line\n", " more\n"}}
+			for _, doc := range docs {
+				m := readerMachine(p, doc)
+				m.Hooks["bufio.NewReader"] = func(m *Machine, st *State, call *ssa.CallCommon, args []Val) ([]Val, bool) {
+					id := st.alloc(types.Typ[types.Int], OpaqueV{"bufio"})
+					return []Val{Ptr{Obj: id}}, true
+				}
+				st := initState(m, "control")
+				if st.Status == stStuck {
+					undecided = st.Msg
+					break
+				}
+				st.Status = stRun
+				st.push(ctor, []Val{IfaceV{T: types.NewPointer(types.Typ[types.Int]), V: OpaqueV{"the-input"}}, nilV{}}, nil)
+				out := m.Run(st)
+				if len(out) != 1 || out[0].Status != stRet {
+					undecided = fmt.Sprintf("document %q: NewParagraphReader: %s", strings.Join(doc, ""), retDesc(out))
+					break
+				}
+				tv, ok := st.Ret.(*TupleV)
+				if !ok || len(tv.E) != 2 {
+					undecided = "unexpected result shape of NewParagraphReader"
+					break
+				}
+				if _, errNil := tv.E[1].(nilV); !errNil {
+					problems = append(problems, fmt.Sprintf("NewParagraphReader fails on the plain document %q", strings.Join(doc, "")))
+					continue
+				}
+				pr := tv.E[0]
+				refPos := 0
+				for call := 0; call < 5; call++ {
+					st.Status = stRun
+					st.Frames = nil
+					st.push(next, []Val{pr}, nil)
+					out := m.Run(st)
+					if len(out) != 1 || out[0].Status != stRet {
+						undecided = fmt.Sprintf("document %q: Next: %s", strings.Join(doc, ""), retDesc(out))
+						break
+					}
+					nt, ok := st.Ret.(*TupleV)
+					if !ok || len(nt.E) != 2 {
+						undecided = "unexpected result shape of Next"
+						break
+					}
+					want, wantErr, np := refNext(doc, refPos)
+					refPos = np
+					gotErr := ""
+					if e, isErr := nt.E[1].(IfaceV); isErr {
+						gotErr = "bad"
+						if e.V == "io.EOF" {
+							gotErr = "EOF"
+						}
+					}
+					if gotErr != wantErr {
+						problems = append(problems, fmt.Sprintf("document %q read through NewParagraphReader: call %d of Next ends with %q, the deb822 reference says %q", strings.Join(doc, ""), call+1, gotErr, wantErr))
+						break
+					}
+					if gotErr != "" {
+						break
+					}
+					got, why := paraOf(st, p, nt.E[0])
+					if why != "" {
+						undecided = why
+						break
+					}
+					if got.String() != want.String() {
+						problems = append(problems, fmt.Sprintf("document %q read through NewParagraphReader: paragraph %d is %s, the deb822 reference says %s", strings.Join(doc, ""), call+1, got, want))
+						break
+					}
+				}
+				if undecided != "" {
+					break
+				}
+			}
+			if undecided != "" {
+				nw.undecided("control.NewParagraphReader", p.Pos(ctor.Pos()), undecided)
+			} else {
+				fillProblems(nw, "control.NewParagraphReader", p.Pos(ctor.Pos()), problems, fmt.Sprintf("%d plain documents (5 bytes, 4 bytes without newline, empty, a blank line, an empty field, two paragraphs, a comment first): the constructor succeeds and Next returns the paragraphs of the input", len(docs)))
+			}
+		}
 	}
 
 	// C07-ALL
